@@ -76,7 +76,7 @@ func vRun(r *engine.Run, mode string) int {
 		}
 	}
 	n := 0
-	engine.Map("versions", cases, func(i int, c json.RawMessage, res *engine.Result) {
+	r.MapBudget("versions", cases, func(i int, c json.RawMessage, res *engine.Result) {
 		r.Add("versions", c, res)
 		n++
 		if n%53 == 1 && res.Data != nil {
